@@ -107,6 +107,7 @@ type route struct {
 }
 
 var baseRoutes = []route{
+	{"/", "GET", 209, false}, // the root route has its own fast path in the router
 	{"/s", "GET", 201, false},
 	{"/a/:x", "GET", 202, false},
 	{"/u/:a/:b", "GET", 0, false},
@@ -144,6 +145,8 @@ func opRequest(op string, k, extra int) req {
 	switch op {
 	case "m0":
 		return req{"GET", "/s"}
+	case "mr":
+		return req{"GET", "/"}
 	case "m1":
 		return req{"GET", fmt.Sprintf("/a/v%d", k)}
 	case "m2":
@@ -174,7 +177,7 @@ func opRequest(op string, k, extra int) req {
 	panic("unknown op " + op)
 }
 
-var alphabet = []string{"m0", "m1", "m2", "ma", "un", "pm", "pn", "rg", "sr"}
+var alphabet = []string{"m0", "mr", "m1", "m2", "ma", "un", "pm", "pn", "rg", "sr"}
 
 type Case struct {
 	Ops []string `json:"ops,omitempty"`
@@ -285,7 +288,7 @@ func runConc(cs Case, st *stats) (key, expected, observed string) {
 	}
 	r0 := rand.New(rand.NewSource(cs.Seed))
 	var kinds []plan
-	ops := []string{"m0", "m1", "m2", "ma", "un", "pm", "pn", "sr"}
+	ops := []string{"m0", "mr", "m1", "m2", "ma", "un", "pm", "pn", "sr"}
 	fw := &recWriter{h: http.Header{}}
 	fr := &http.Request{URL: &url.URL{}, Header: http.Header{}}
 	for i := 0; i < 64; i++ {
@@ -375,7 +378,7 @@ type mon struct{}
 func (mon) Name() string { return "reqiso" }
 
 func (mon) Level(string) (string, string) {
-	return "exploration", "request histories on one long-lived Mux, each request compared with the same request on a fresh Mux holding the routes registered so far (relay handler, route handler and no-route handler all look up every parameter name of the table + an unknown one, RouteParamAny, W.Status at entry, GetID at entry/exit). Exhaustive: all histories of ≤4 (quick) / ≤6 (thorough) ops over the 9-op alphabet {matched 0/1/2 params, matched *, unmatched, partial match failing at the method node, panicking handler, register a route with more parameters than any before, serve the newest such route} on one goroutine (maximal Store reuse); seeded random histories of ≤200 ops; concurrent runs (4..16 goroutines) plain and under -race with an ID-uniqueness set. distinct_nontrivial = distinct histories containing at least two requests (by op sequence)"
+	return "exploration", "request histories on one long-lived Mux, each request compared with the same request on a fresh Mux holding the routes registered so far (relay handler, route handler and no-route handler all look up every parameter name of the table + an unknown one, RouteParamAny, W.Status at entry, GetID at entry/exit). Exhaustive: all histories of ≤4 (quick) / ≤6 (thorough) ops over the 10-op alphabet {matched 0/1/2 params, the root route '/', matched *, unmatched, partial match failing at the method node, panicking handler, register a route with more parameters than any before, serve the newest such route} on one goroutine (maximal Store reuse); seeded random histories of ≤200 ops; concurrent runs (4..16 goroutines) plain and under -race with an ID-uniqueness set. distinct_nontrivial = distinct histories containing at least two requests (by op sequence)"
 }
 
 type shardArgs struct {
@@ -391,7 +394,7 @@ type shardArgs struct {
 func (mon) Plan(prop, tier string, seed int64) []drv.Shard {
 	var out []drv.Shard
 	parts := 16
-	maxLen, nrand, nconc, nrace := 4, 2000, 6, 3
+	maxLen, nrand, nconc, nrace := 4, 2000, 3, 2
 	if tier == "thorough" {
 		maxLen, nrand, nconc, nrace = 6, 100000, 60, 30
 	}
